@@ -135,17 +135,21 @@ class JSONPathRecursiveDescentSegment(JSONPathSegment):
 
             try:
                 node = next(children)
+                # Nothing can be selected from a scalar, so when it is visited
+                # relative to other nodes makes no difference to the result.
+                # Visit scalars right away; only containers compete for the
+                # random choice, which keeps every result ordering likely.
+                while not isinstance(node.value, (dict, list)):
+                    yield node
+                    node = next(children)
             except StopIteration:
                 pending.pop(idx)
                 continue
 
-            if isinstance(node.value, (dict, list)):
-                if _depth > self.env.max_recursion_depth:
-                    raise JSONPathRecursionError(
-                        "recursion limit exceeded", token=self.token
-                    )
-                pending.append((iter(_nondeterministic_children(node)), _depth + 1))
+            if _depth > self.env.max_recursion_depth:
+                raise JSONPathRecursionError("recursion limit exceeded", token=self.token)
 
+            pending.append((iter(_nondeterministic_children(node)), _depth + 1))
             yield node
 
     def __str__(self) -> str:
